@@ -88,3 +88,473 @@ fn c19_fleet_retry_classification_app() {
     assert!(!is_retryable_error(&e), "an application / protocol-level error reply is retried");
     std::mem::forget(e);
 }
+
+// ------------------------------------------------------------------------
+// Retry loop of one fleet call over a symbolic per-attempt outcome script.
+// The node's sockets are the environment: `Client::connect` and the calls on a
+// connected client are stubs that consult the script and keep a shadow record of
+// what every attempt saw; ensure_connected, invalidate_client,
+// is_retryable_error, lock_node_client and the loop itself are the real code.
+const RL_SLOTS: usize = 4;
+const RL_CONNS: usize = 6;
+const O_REFUSED: u8 = 0; // connect refused (on a live cached connection the call sees a reset instead)
+const O_CLOSED: u8 = 1; // accepted then closed / reset / silent until timeout: any transport kind
+const O_IO_OTHER: u8 = 2; // undecodable reply surfaced as InvalidData
+const O_APP: u8 = 3; // application error reply
+const O_OK: u8 = 4;
+const S_TRANSPORT: u8 = 1;
+const S_NONRETRY_IO: u8 = 2;
+const S_APP: u8 = 3;
+const S_OK: u8 = 4;
+/// Environment contract D again (see `in_transport_set`), as a table.
+const TRANSPORT: [std::io::ErrorKind; 7] = {
+    use std::io::ErrorKind::*;
+    [ConnectionRefused, ConnectionReset, ConnectionAborted, BrokenPipe, NotConnected, UnexpectedEof, TimedOut]
+};
+static mut RL_SCRIPT: [u8; RL_SLOTS] = [0; RL_SLOTS];
+static mut RL_KIND: [u8; RL_SLOTS] = [0; RL_SLOTS];
+static mut RL_SEEN: [u8; RL_SLOTS] = [0; RL_SLOTS];
+static mut RL_SEEN_KIND: [u8; RL_SLOTS] = [0; RL_SLOTS];
+static mut RL_ATTEMPTS: usize = 0;
+static mut RL_MAX: usize = 0;
+static mut RL_CONNECTS: u64 = 0;
+static mut RL_FAILED: [bool; RL_CONNS] = [false; RL_CONNS];
+static mut RL_IDLE_DEAD: bool = false;
+static mut RL_IDLE_CONN: usize = RL_CONNS - 1;
+static mut RL_REUSED_DEAD: bool = false;
+static mut RL_SLEEPS: usize = 0;
+
+fn rl_begin_attempt() -> usize {
+    unsafe {
+        let a = RL_ATTEMPTS;
+        assert!(a < RL_MAX, "a fleet call made more attempts than retry_policy.max_attempts");
+        RL_ATTEMPTS = a + 1;
+        a
+    }
+}
+
+fn rl_connect_stub<A: std::net::ToSocketAddrs>(_addr: A) -> std::io::Result<Client> {
+    unsafe {
+        if RL_ATTEMPTS < RL_SLOTS && RL_SCRIPT[RL_ATTEMPTS] == O_REFUSED {
+            let a = rl_begin_attempt();
+            RL_SEEN[a] = S_TRANSPORT;
+            RL_SEEN_KIND[a] = 0;
+            return Err(std::io::Error::from(std::io::ErrorKind::ConnectionRefused));
+        }
+        let k = RL_CONNECTS;
+        RL_CONNECTS = k + 1;
+        kani::assume((k as usize) < RL_CONNS - 1);
+        Ok(crate::client::verif_kani::model_client(k))
+    }
+}
+
+/// One request/response exchange on a connected client: Ok(marker) or the error
+/// the script dictates for this attempt.
+fn rl_exchange(this: &Client) -> Result<u64, RepeError> {
+    unsafe {
+        let a = rl_begin_attempt();
+        let conn = crate::client::verif_kani::model_client_conn(this) as usize;
+        let idle_dead = conn == RL_IDLE_CONN && RL_IDLE_DEAD;
+        if RL_FAILED[conn] || idle_dead {
+            // a socket that died while idle, or already failed at transport level,
+            // fails (again) whatever the node would answer on a fresh connection
+            if RL_FAILED[conn] {
+                RL_REUSED_DEAD = true;
+            }
+            RL_FAILED[conn] = true;
+            RL_SEEN[a] = S_TRANSPORT;
+            RL_SEEN_KIND[a] = 3;
+            return Err(RepeError::Io(std::io::Error::from(std::io::ErrorKind::BrokenPipe)));
+        }
+        match RL_SCRIPT[a] {
+            O_REFUSED | O_CLOSED => {
+                let k = if RL_SCRIPT[a] == O_REFUSED { 1 } else { RL_KIND[a] };
+                RL_FAILED[conn] = true;
+                RL_SEEN[a] = S_TRANSPORT;
+                RL_SEEN_KIND[a] = k;
+                Err(RepeError::Io(std::io::Error::from(TRANSPORT[k as usize])))
+            }
+            O_IO_OTHER => {
+                RL_SEEN[a] = S_NONRETRY_IO;
+                Err(RepeError::Io(std::io::Error::from(std::io::ErrorKind::InvalidData)))
+            }
+            O_APP => {
+                RL_SEEN[a] = S_APP;
+                Err(RepeError::ServerError { code: ErrorCode::InternalError, message: String::new() })
+            }
+            _ => {
+                RL_SEEN[a] = S_OK;
+                Ok(100 + a as u64)
+            }
+        }
+    }
+}
+
+fn rl_call_stub<P: AsRef<str>>(this: &Client, _path: P, _timeout: Duration) -> Result<Message, RepeError> {
+    match rl_exchange(this) {
+        Ok(marker) => {
+            let mut header = crate::header::Header::new();
+            header.id = marker;
+            Ok(Message { header, query: Vec::new(), body: Vec::new() })
+        }
+        Err(e) => Err(e),
+    }
+}
+
+fn rl_call_json_stub<P: AsRef<str>, T: serde::Serialize>(this: &Client, _path: P, _body: &T, _timeout: Duration) -> Result<Value, RepeError> {
+    match rl_exchange(this) {
+        Ok(marker) => Ok(Value::from(marker)),
+        Err(e) => Err(e),
+    }
+}
+
+fn rl_sleep_stub(_d: Duration) {
+    unsafe {
+        RL_SLEEPS += 1;
+    }
+}
+fn rl_now_stub() -> Instant {
+    crate::verif_common::instant_at(5)
+}
+fn rl_elapsed_stub(_i: &Instant) -> Duration {
+    Duration::ZERO
+}
+
+fn rl_setup(max_attempts: usize, cached: bool) -> (Fleet, Arc<NodeState>) {
+    let script: [u8; RL_SLOTS] = kani::any();
+    let kinds: [u8; RL_SLOTS] = kani::any();
+    // (unrolled: keeps the harness free of loops, so the unwind bound is the retry loop's)
+    kani::assume(script[0] <= O_OK && (kinds[0] as usize) < TRANSPORT.len() && kinds[0] >= 1);
+    kani::assume(script[1] <= O_OK && (kinds[1] as usize) < TRANSPORT.len() && kinds[1] >= 1);
+    kani::assume(script[2] <= O_OK && (kinds[2] as usize) < TRANSPORT.len() && kinds[2] >= 1);
+    kani::assume(script[3] <= O_OK && (kinds[3] as usize) < TRANSPORT.len() && kinds[3] >= 1);
+    unsafe {
+        RL_SCRIPT = script;
+        RL_KIND = kinds;
+        RL_MAX = max_attempts;
+    }
+    let fleet = Fleet {
+        nodes: Arc::new(RwLock::new(HashMap::new())),
+        options: FleetOptions {
+            default_timeout: Duration::from_secs(1),
+            retry_policy: RetryPolicy { max_attempts, delay: Duration::from_secs(1) },
+        },
+    };
+    let node = Arc::new(NodeState {
+        config: NodeConfig {
+            name: String::new(),
+            host: String::new(),
+            port: 9,
+            tags: BTreeSet::new(),
+            timeout: Duration::from_secs(1),
+        },
+        tags: BTreeSet::new(),
+        // the node may hold a connection cached by an earlier call, and that
+        // connection may have died while idle
+        client: Mutex::new(if cached { Some(crate::client::verif_kani::model_client((RL_CONNS - 1) as u64)) } else { None }),
+    });
+    if cached {
+        unsafe {
+            RL_IDLE_DEAD = kani::any();
+        }
+    }
+    (fleet, node)
+}
+
+/// The property, over the shadow record: `ok_marker` is the marker of the reply
+/// the call reported (None: it reported `error`).
+fn rl_check(ok_marker: Option<u64>, error: &Option<RepeError>, node: &Arc<NodeState>) {
+    let (n, max) = unsafe { (RL_ATTEMPTS, RL_MAX) };
+    assert!(n >= 1 && n <= max, "attempt count outside 1..=max_attempts");
+    let seen = unsafe { RL_SEEN };
+    assert!(n < 2 || seen[0] == S_TRANSPORT, "retried after a reply (success, application error or non-transport error)");
+    assert!(n < 3 || seen[1] == S_TRANSPORT, "retried after a reply (success, application error or non-transport error)");
+    assert!(n < 4 || seen[2] == S_TRANSPORT, "retried after a reply (success, application error or non-transport error)");
+    let (last, last_kind) = unsafe { (RL_SEEN[n - 1], RL_SEEN_KIND[n - 1]) };
+    match (ok_marker, error) {
+        (Some(m), None) => {
+            assert!(last == S_OK && m == 100 + (n as u64 - 1), "reported a success that is not the last attempt's reply");
+        }
+        (None, Some(RepeError::Io(e))) => {
+            if last == S_TRANSPORT {
+                assert!(e.kind() == TRANSPORT[last_kind as usize], "reported error is not the last transport error");
+            } else {
+                assert!(last == S_NONRETRY_IO && e.kind() == std::io::ErrorKind::InvalidData, "reported error is not the last attempt's outcome");
+            }
+        }
+        (None, Some(RepeError::ServerError { code, .. })) => {
+            assert!(last == S_APP && *code == ErrorCode::InternalError, "reported an application error that is not the last attempt's reply");
+        }
+        _ => assert!(false, "result carries neither the last reply nor the last error"),
+    }
+    assert!(!unsafe { RL_REUSED_DEAD }, "an attempt reused a connection that had already failed at transport level");
+    let cached = lock_node_client(&node.client);
+    if last == S_TRANSPORT {
+        assert!(cached.is_none(), "a transport failure left the dead client cached: the node stays wedged for later calls");
+    }
+    kani::cover!(n == max && last == S_TRANSPORT);
+    kani::cover!(n == max && last == S_OK);
+    kani::cover!(seen[0] == S_TRANSPORT && unsafe { RL_SEEN_KIND[0] } == 3);
+    std::mem::forget(cached);
+}
+
+fn rl_check_message(r: RemoteResult<Message>, node: &Arc<NodeState>) {
+    assert!(r.value.is_some() != r.error.is_some(), "result carries both or neither of value and error");
+    rl_check(r.value.as_ref().map(|m| m.header.id), &r.error, node);
+    std::mem::forget(r);
+}
+
+fn rl_message<const MAXA: usize, const CACHED: bool>() {
+    let max_attempts: usize = kani::any();
+    kani::assume(max_attempts >= 1 && max_attempts <= MAXA);
+    let (fleet, node) = rl_setup(max_attempts, CACHED);
+    let r = fleet.call_message_with_retry(node.clone(), String::from("/m"));
+    rl_check_message(r, &node);
+    std::mem::forget(node);
+    std::mem::forget(fleet);
+}
+
+fn rl_json<const MAXA: usize>() {
+    let max_attempts: usize = kani::any();
+    kani::assume(max_attempts >= 1 && max_attempts <= MAXA);
+    let (fleet, node) = rl_setup(max_attempts, false);
+    let r = fleet.call_json_with_retry(node.clone(), String::from("/m"), Some(Value::Null));
+    assert!(r.value.is_some() != r.error.is_some(), "result carries both or neither of value and error");
+    rl_check(r.value.as_ref().and_then(|v| v.as_u64()), &r.error, &node);
+    std::mem::forget(r);
+    std::mem::forget(node);
+    std::mem::forget(fleet);
+}
+
+fn rl_message_second<const MAXA: usize>() {
+    let max_attempts: usize = kani::any();
+    kani::assume(max_attempts >= 1 && max_attempts <= MAXA);
+    let (fleet, node) = rl_setup(max_attempts, false);
+    // an earlier successful call leaves its connection (number 0) cached ...
+    let script = unsafe { RL_SCRIPT };
+    unsafe {
+        RL_SCRIPT[0] = O_OK;
+    }
+    let first = fleet.call_message_with_retry(node.clone(), String::from("/m"));
+    assert!(first.value.is_some() && unsafe { RL_ATTEMPTS } == 1);
+    std::mem::forget(first);
+    // ... which may then die while idle, before the call under test
+    unsafe {
+        RL_SCRIPT = script;
+        RL_ATTEMPTS = 0;
+        RL_SEEN = [0; RL_SLOTS];
+        RL_IDLE_CONN = 0;
+        RL_IDLE_DEAD = kani::any();
+    }
+    let r = fleet.call_message_with_retry(node.clone(), String::from("/m"));
+    rl_check_message(r, &node);
+    std::mem::forget(node);
+    std::mem::forget(fleet);
+}
+
+//@ name: c19_fleet_retry_loop_message_a3
+//@ prop: C19
+//@ tier: quick
+//@ clause: for every per-attempt outcome sequence of one node (connect refused; accepted then closed, reset or silent until timeout, with any transport kind of contract D; undecodable reply; application error; success): at most max_attempts attempts, a further attempt only after a transport failure, the reported result is the last attempt's reply or error, a connection that failed is never used again, and after a transport failure no client stays cached (a later call reconnects); message call on a node with no cached connection
+//@ funcs: Fleet::call_message_with_retry / call_json_with_retry, fleet::ensure_connected, fleet::invalidate_client, fleet::is_retryable_error, fleet::lock_node_client
+//@ symbolic: max_attempts, the outcome of every attempt (5-letter alphabet x 6 transport kinds), whether a cached connection died while idle
+//@ bounds: max_attempts 1..=3; one node, blocking Fleet; unwind 4
+//@ oracle: shadow record of what each attempt saw, written by the environment stubs, checked after the call returns
+//@ stubs: Client::connect, Client::call_message_with_timeout / call_json_with_timeout -> scripted environment with shadow record; thread::sleep -> counter; Instant::now / elapsed -> constants; RandomState::new -> fixed keys; <ClientInner as Drop>::drop -> no-op; Arc::drop_slow -> leak
+//@ assumes: a connection that failed at transport level, or died while idle, fails with BrokenPipe when used; releasing the last reference to shared state (socket shutdown/close, failing pending callers) is outside the model
+#[kani::proof]
+#[kani::stub(crate::client::Client::connect, rl_connect_stub)]
+#[kani::stub(crate::client::Client::call_message_with_timeout, rl_call_stub)]
+#[kani::stub(crate::client::Client::call_json_with_timeout, rl_call_json_stub)]
+#[kani::stub(std::thread::sleep, rl_sleep_stub)]
+#[kani::stub(std::time::Instant::now, rl_now_stub)]
+#[kani::stub(std::time::Instant::elapsed, rl_elapsed_stub)]
+#[kani::stub(std::hash::RandomState::new, crate::verif_common::random_state_stub)]
+#[kani::stub(<crate::client::ClientInner as std::ops::Drop>::drop, crate::client::verif_kani::client_inner_drop_stub)]
+#[kani::stub(std::sync::Arc::drop_slow, crate::verif_common::arc_drop_slow_stub)]
+#[kani::unwind(4)]
+fn c19_fleet_retry_loop_message_a3() {
+    rl_message::<3, false>();
+}
+
+//@ name: c19_fleet_retry_loop_json_a2
+//@ prop: C19
+//@ tier: quick
+//@ clause: for every per-attempt outcome sequence of one node (connect refused; accepted then closed, reset or silent until timeout, with any transport kind of contract D; undecodable reply; application error; success): at most max_attempts attempts, a further attempt only after a transport failure, the reported result is the last attempt's reply or error, a connection that failed is never used again, and after a transport failure no client stays cached (a later call reconnects); JSON call (the second copy of the loop) on a node with no cached connection
+//@ funcs: Fleet::call_message_with_retry / call_json_with_retry, fleet::ensure_connected, fleet::invalidate_client, fleet::is_retryable_error, fleet::lock_node_client
+//@ symbolic: max_attempts, the outcome of every attempt (5-letter alphabet x 6 transport kinds), whether a cached connection died while idle
+//@ bounds: max_attempts 1..=2; one node, blocking Fleet; unwind 3
+//@ oracle: shadow record of what each attempt saw, written by the environment stubs, checked after the call returns
+//@ stubs: Client::connect, Client::call_message_with_timeout / call_json_with_timeout -> scripted environment with shadow record; thread::sleep -> counter; Instant::now / elapsed -> constants; RandomState::new -> fixed keys; <ClientInner as Drop>::drop -> no-op; Arc::drop_slow -> leak
+//@ assumes: a connection that failed at transport level, or died while idle, fails with BrokenPipe when used; releasing the last reference to shared state (socket shutdown/close, failing pending callers) is outside the model
+#[kani::proof]
+#[kani::stub(crate::client::Client::connect, rl_connect_stub)]
+#[kani::stub(crate::client::Client::call_message_with_timeout, rl_call_stub)]
+#[kani::stub(crate::client::Client::call_json_with_timeout, rl_call_json_stub)]
+#[kani::stub(std::thread::sleep, rl_sleep_stub)]
+#[kani::stub(std::time::Instant::now, rl_now_stub)]
+#[kani::stub(std::time::Instant::elapsed, rl_elapsed_stub)]
+#[kani::stub(std::hash::RandomState::new, crate::verif_common::random_state_stub)]
+#[kani::stub(<crate::client::ClientInner as std::ops::Drop>::drop, crate::client::verif_kani::client_inner_drop_stub)]
+#[kani::stub(std::sync::Arc::drop_slow, crate::verif_common::arc_drop_slow_stub)]
+#[kani::unwind(3)]
+fn c19_fleet_retry_loop_json_a2() {
+    rl_json::<2>();
+}
+
+//@ name: c19_fleet_retry_loop_json_a3
+//@ prop: C19
+//@ tier: thorough
+//@ clause: for every per-attempt outcome sequence of one node (connect refused; accepted then closed, reset or silent until timeout, with any transport kind of contract D; undecodable reply; application error; success): at most max_attempts attempts, a further attempt only after a transport failure, the reported result is the last attempt's reply or error, a connection that failed is never used again, and after a transport failure no client stays cached (a later call reconnects); JSON call (the second copy of the loop) on a node with no cached connection
+//@ funcs: Fleet::call_message_with_retry / call_json_with_retry, fleet::ensure_connected, fleet::invalidate_client, fleet::is_retryable_error, fleet::lock_node_client
+//@ symbolic: max_attempts, the outcome of every attempt (5-letter alphabet x 6 transport kinds), whether a cached connection died while idle
+//@ bounds: max_attempts 1..=3; one node, blocking Fleet; unwind 4
+//@ oracle: shadow record of what each attempt saw, written by the environment stubs, checked after the call returns
+//@ stubs: Client::connect, Client::call_message_with_timeout / call_json_with_timeout -> scripted environment with shadow record; thread::sleep -> counter; Instant::now / elapsed -> constants; RandomState::new -> fixed keys; <ClientInner as Drop>::drop -> no-op; Arc::drop_slow -> leak
+//@ assumes: a connection that failed at transport level, or died while idle, fails with BrokenPipe when used; releasing the last reference to shared state (socket shutdown/close, failing pending callers) is outside the model
+#[kani::proof]
+#[kani::stub(crate::client::Client::connect, rl_connect_stub)]
+#[kani::stub(crate::client::Client::call_message_with_timeout, rl_call_stub)]
+#[kani::stub(crate::client::Client::call_json_with_timeout, rl_call_json_stub)]
+#[kani::stub(std::thread::sleep, rl_sleep_stub)]
+#[kani::stub(std::time::Instant::now, rl_now_stub)]
+#[kani::stub(std::time::Instant::elapsed, rl_elapsed_stub)]
+#[kani::stub(std::hash::RandomState::new, crate::verif_common::random_state_stub)]
+#[kani::stub(<crate::client::ClientInner as std::ops::Drop>::drop, crate::client::verif_kani::client_inner_drop_stub)]
+#[kani::stub(std::sync::Arc::drop_slow, crate::verif_common::arc_drop_slow_stub)]
+#[kani::unwind(4)]
+fn c19_fleet_retry_loop_json_a3() {
+    rl_json::<3>();
+}
+
+//@ name: c19_fleet_retry_loop_message_a1_cached
+//@ prop: C19
+//@ tier: thorough
+//@ clause: for every per-attempt outcome sequence of one node (connect refused; accepted then closed, reset or silent until timeout, with any transport kind of contract D; undecodable reply; application error; success): at most max_attempts attempts, a further attempt only after a transport failure, the reported result is the last attempt's reply or error, a connection that failed is never used again, and after a transport failure no client stays cached (a later call reconnects); message call on a node holding a cached connection that may have died while idle
+//@ funcs: Fleet::call_message_with_retry / call_json_with_retry, fleet::ensure_connected, fleet::invalidate_client, fleet::is_retryable_error, fleet::lock_node_client
+//@ symbolic: max_attempts, the outcome of every attempt (5-letter alphabet x 6 transport kinds), whether a cached connection died while idle
+//@ bounds: max_attempts 1; one node, blocking Fleet; unwind 2
+//@ oracle: shadow record of what each attempt saw, written by the environment stubs, checked after the call returns
+//@ stubs: Client::connect, Client::call_message_with_timeout / call_json_with_timeout -> scripted environment with shadow record; thread::sleep -> counter; Instant::now / elapsed -> constants; RandomState::new -> fixed keys; <ClientInner as Drop>::drop -> no-op; Arc::drop_slow -> leak
+//@ assumes: a connection that failed at transport level, or died while idle, fails with BrokenPipe when used; releasing the last reference to shared state (socket shutdown/close, failing pending callers) is outside the model
+//@ mem: high
+#[kani::proof]
+#[kani::stub(crate::client::Client::connect, rl_connect_stub)]
+#[kani::stub(crate::client::Client::call_message_with_timeout, rl_call_stub)]
+#[kani::stub(crate::client::Client::call_json_with_timeout, rl_call_json_stub)]
+#[kani::stub(std::thread::sleep, rl_sleep_stub)]
+#[kani::stub(std::time::Instant::now, rl_now_stub)]
+#[kani::stub(std::time::Instant::elapsed, rl_elapsed_stub)]
+#[kani::stub(std::hash::RandomState::new, crate::verif_common::random_state_stub)]
+#[kani::stub(<crate::client::ClientInner as std::ops::Drop>::drop, crate::client::verif_kani::client_inner_drop_stub)]
+#[kani::stub(std::sync::Arc::drop_slow, crate::verif_common::arc_drop_slow_stub)]
+#[kani::unwind(2)]
+fn c19_fleet_retry_loop_message_a1_cached() {
+    rl_message::<1, true>();
+}
+
+//@ name: c19_fleet_retry_loop_message_a2_cached
+//@ prop: C19
+//@ tier: thorough
+//@ clause: for every per-attempt outcome sequence of one node (connect refused; accepted then closed, reset or silent until timeout, with any transport kind of contract D; undecodable reply; application error; success): at most max_attempts attempts, a further attempt only after a transport failure, the reported result is the last attempt's reply or error, a connection that failed is never used again, and after a transport failure no client stays cached (a later call reconnects); message call on a node holding a cached connection that may have died while idle
+//@ funcs: Fleet::call_message_with_retry / call_json_with_retry, fleet::ensure_connected, fleet::invalidate_client, fleet::is_retryable_error, fleet::lock_node_client
+//@ symbolic: max_attempts, the outcome of every attempt (5-letter alphabet x 6 transport kinds), whether a cached connection died while idle
+//@ bounds: max_attempts 1..=2; one node, blocking Fleet; unwind 3
+//@ oracle: shadow record of what each attempt saw, written by the environment stubs, checked after the call returns
+//@ stubs: Client::connect, Client::call_message_with_timeout / call_json_with_timeout -> scripted environment with shadow record; thread::sleep -> counter; Instant::now / elapsed -> constants; RandomState::new -> fixed keys; <ClientInner as Drop>::drop -> no-op; Arc::drop_slow -> leak
+//@ assumes: a connection that failed at transport level, or died while idle, fails with BrokenPipe when used; releasing the last reference to shared state (socket shutdown/close, failing pending callers) is outside the model
+//@ mem: high
+#[kani::proof]
+#[kani::stub(crate::client::Client::connect, rl_connect_stub)]
+#[kani::stub(crate::client::Client::call_message_with_timeout, rl_call_stub)]
+#[kani::stub(crate::client::Client::call_json_with_timeout, rl_call_json_stub)]
+#[kani::stub(std::thread::sleep, rl_sleep_stub)]
+#[kani::stub(std::time::Instant::now, rl_now_stub)]
+#[kani::stub(std::time::Instant::elapsed, rl_elapsed_stub)]
+#[kani::stub(std::hash::RandomState::new, crate::verif_common::random_state_stub)]
+#[kani::stub(<crate::client::ClientInner as std::ops::Drop>::drop, crate::client::verif_kani::client_inner_drop_stub)]
+#[kani::stub(std::sync::Arc::drop_slow, crate::verif_common::arc_drop_slow_stub)]
+#[kani::unwind(3)]
+fn c19_fleet_retry_loop_message_a2_cached() {
+    rl_message::<2, true>();
+}
+
+//@ name: c19_fleet_retry_loop_message_a3_cached
+//@ prop: C19
+//@ tier: thorough
+//@ clause: for every per-attempt outcome sequence of one node (connect refused; accepted then closed, reset or silent until timeout, with any transport kind of contract D; undecodable reply; application error; success): at most max_attempts attempts, a further attempt only after a transport failure, the reported result is the last attempt's reply or error, a connection that failed is never used again, and after a transport failure no client stays cached (a later call reconnects); message call on a node holding a cached connection that may have died while idle
+//@ funcs: Fleet::call_message_with_retry / call_json_with_retry, fleet::ensure_connected, fleet::invalidate_client, fleet::is_retryable_error, fleet::lock_node_client
+//@ symbolic: max_attempts, the outcome of every attempt (5-letter alphabet x 6 transport kinds), whether a cached connection died while idle
+//@ bounds: max_attempts 1..=3; one node, blocking Fleet; unwind 4
+//@ oracle: shadow record of what each attempt saw, written by the environment stubs, checked after the call returns
+//@ stubs: Client::connect, Client::call_message_with_timeout / call_json_with_timeout -> scripted environment with shadow record; thread::sleep -> counter; Instant::now / elapsed -> constants; RandomState::new -> fixed keys; <ClientInner as Drop>::drop -> no-op; Arc::drop_slow -> leak
+//@ assumes: a connection that failed at transport level, or died while idle, fails with BrokenPipe when used; releasing the last reference to shared state (socket shutdown/close, failing pending callers) is outside the model
+//@ mem: high
+#[kani::proof]
+#[kani::stub(crate::client::Client::connect, rl_connect_stub)]
+#[kani::stub(crate::client::Client::call_message_with_timeout, rl_call_stub)]
+#[kani::stub(crate::client::Client::call_json_with_timeout, rl_call_json_stub)]
+#[kani::stub(std::thread::sleep, rl_sleep_stub)]
+#[kani::stub(std::time::Instant::now, rl_now_stub)]
+#[kani::stub(std::time::Instant::elapsed, rl_elapsed_stub)]
+#[kani::stub(std::hash::RandomState::new, crate::verif_common::random_state_stub)]
+#[kani::stub(<crate::client::ClientInner as std::ops::Drop>::drop, crate::client::verif_kani::client_inner_drop_stub)]
+#[kani::stub(std::sync::Arc::drop_slow, crate::verif_common::arc_drop_slow_stub)]
+#[kani::unwind(4)]
+fn c19_fleet_retry_loop_message_a3_cached() {
+    rl_message::<3, true>();
+}
+
+//@ name: c19_fleet_retry_loop_second_call_a1
+//@ prop: C19
+//@ tier: thorough
+//@ clause: for every per-attempt outcome sequence of one node (connect refused; accepted then closed, reset or silent until timeout, with any transport kind of contract D; undecodable reply; application error; success): at most max_attempts attempts, a further attempt only after a transport failure, the reported result is the last attempt's reply or error, a connection that failed is never used again, and after a transport failure no client stays cached (a later call reconnects); second message call after a successful one cached its connection through the real code, the connection possibly dying while idle in between
+//@ funcs: Fleet::call_message_with_retry / call_json_with_retry, fleet::ensure_connected, fleet::invalidate_client, fleet::is_retryable_error, fleet::lock_node_client
+//@ symbolic: max_attempts, the outcome of every attempt (5-letter alphabet x 6 transport kinds), whether a cached connection died while idle
+//@ bounds: max_attempts 1; two calls; one node, blocking Fleet; unwind 2
+//@ oracle: shadow record of what each attempt saw, written by the environment stubs, checked after the call returns
+//@ stubs: Client::connect, Client::call_message_with_timeout / call_json_with_timeout -> scripted environment with shadow record; thread::sleep -> counter; Instant::now / elapsed -> constants; RandomState::new -> fixed keys; <ClientInner as Drop>::drop -> no-op; Arc::drop_slow -> leak
+//@ assumes: a connection that failed at transport level, or died while idle, fails with BrokenPipe when used; releasing the last reference to shared state (socket shutdown/close, failing pending callers) is outside the model
+//@ mem: high
+#[kani::proof]
+#[kani::stub(crate::client::Client::connect, rl_connect_stub)]
+#[kani::stub(crate::client::Client::call_message_with_timeout, rl_call_stub)]
+#[kani::stub(crate::client::Client::call_json_with_timeout, rl_call_json_stub)]
+#[kani::stub(std::thread::sleep, rl_sleep_stub)]
+#[kani::stub(std::time::Instant::now, rl_now_stub)]
+#[kani::stub(std::time::Instant::elapsed, rl_elapsed_stub)]
+#[kani::stub(std::hash::RandomState::new, crate::verif_common::random_state_stub)]
+#[kani::stub(<crate::client::ClientInner as std::ops::Drop>::drop, crate::client::verif_kani::client_inner_drop_stub)]
+#[kani::stub(std::sync::Arc::drop_slow, crate::verif_common::arc_drop_slow_stub)]
+#[kani::unwind(2)]
+fn c19_fleet_retry_loop_second_call_a1() {
+    rl_message_second::<1>();
+}
+
+//@ name: c19_fleet_retry_loop_witness
+//@ prop: C19
+//@ tier: quick
+//@ clause: vacuity witness: the retry-loop harness reaches its checks with three attempts made
+//@ funcs: Fleet::call_message_with_retry
+//@ expect: fail
+//@ stubs: as c19_fleet_retry_loop_message_a3
+#[kani::proof]
+#[kani::stub(crate::client::Client::connect, rl_connect_stub)]
+#[kani::stub(crate::client::Client::call_message_with_timeout, rl_call_stub)]
+#[kani::stub(std::thread::sleep, rl_sleep_stub)]
+#[kani::stub(std::time::Instant::now, rl_now_stub)]
+#[kani::stub(std::time::Instant::elapsed, rl_elapsed_stub)]
+#[kani::stub(std::hash::RandomState::new, crate::verif_common::random_state_stub)]
+#[kani::stub(<crate::client::ClientInner as std::ops::Drop>::drop, crate::client::verif_kani::client_inner_drop_stub)]
+#[kani::stub(std::sync::Arc::drop_slow, crate::verif_common::arc_drop_slow_stub)]
+#[kani::unwind(4)]
+fn c19_fleet_retry_loop_witness() {
+    let (fleet, node) = rl_setup(3, false);
+    let r = fleet.call_message_with_retry(node.clone(), String::from("/m"));
+    if unsafe { RL_ATTEMPTS } == 3 && r.value.is_some() {
+        assert!(false, "verif-witness");
+    }
+    std::mem::forget(r);
+    std::mem::forget(node);
+    std::mem::forget(fleet);
+}
